@@ -119,6 +119,36 @@ func runC13(rc *RunCtx) {
 			})
 		}
 	}
+	// In half of the runs the handles are in use, as they are in the server: each one
+	// has consumers that accept connections / read datagrams until it is closed.
+	consumers := 0
+	if G.Draw(2) == 0 {
+		consumers = 1 + G.Draw(2)
+		simrt.Probe("handles_have_consumers")
+	}
+	consume := func(h io.Closer) {
+		for c := 0; c < consumers; c++ {
+			simrt.GoDaemon("c13-consumer", func() {
+				switch x := h.(type) {
+				case service.StreamListener:
+					for {
+						c, err := x.AcceptStream()
+						if err != nil {
+							return
+						}
+						c.Close()
+					}
+				case net.PacketConn:
+					buf := make([]byte, 2048)
+					for {
+						if _, _, err := x.ReadFrom(buf); err != nil {
+							return
+						}
+					}
+				}
+			})
+		}
+	}
 	for t := 0; t < nTasks; t++ {
 		t := t
 		nOps := 1 + G.Draw(5)
@@ -137,6 +167,9 @@ func runC13(rc *RunCtx) {
 		}
 		simrt.GoNamed(fmt.Sprintf("c13-worker-%d", t), func() {
 			held := pre[t]
+			for _, h := range held {
+				consume(h)
+			}
 			for k, st := range script {
 				op := &opRec{task: t, idx: k}
 				ops = append(ops, op)
@@ -157,6 +190,7 @@ func runC13(rc *RunCtx) {
 					ln, err := m.ListenStream(st.addr)
 					if err == nil {
 						held = append(held, ln)
+						consume(ln)
 					} else if injected == inj0 {
 						rc.Failf("spurious-listen-error:stream", "task %d: ListenStream(%s) failed with %v although nothing else holds the address and no bind failure was injected: no sequential order of the calls explains it", t, st.addr, err)
 					}
@@ -166,6 +200,7 @@ func runC13(rc *RunCtx) {
 					pc, err := m.ListenPacket(st.addr)
 					if err == nil {
 						held = append(held, pc)
+						consume(pc)
 					} else if injected == inj0 {
 						rc.Failf("spurious-listen-error:packet", "task %d: ListenPacket(%s) failed with %v although nothing else holds the address and no bind failure was injected: no sequential order of the calls explains it", t, st.addr, err)
 					}
